@@ -70,6 +70,14 @@ fn exact_class() -> BoxedStrategy<Case> {
         .prop_map(|(form, ci, x, sc, nlen)| {
             let n = if form == 9 { nlen } else { form as usize + 1 };
             let s = ppv_exact::pow2_f64(sc as i64);
+            let mut ci = ci;
+            // 1 case in 4: plant an exact ROOT (the constant term cancels the rest exactly, the value is 0)
+            if n >= 2 && sc % 4 == 0 {
+                let rest: i128 = (1..n).map(|i| ci[i] as i128 * (x as i128).pow(i as u32)).sum();
+                if rest.abs() < (1i128 << 30) {
+                    ci[0] = -(rest as i32);
+                }
+            }
             Case { form, c: ci[..n].iter().map(|&k| B(k as f64 * s)).collect(), x: B(x as f64) }
         })
         .boxed()
@@ -97,7 +105,7 @@ impl Prop for C01 {
                 _ => (form - 10) as usize + 1,
             };
             let emax_c = if wide % 4 == 0 { 200 } else { 30 };
-            let arg = if form >= 10 { v_strategy() } else { x_strategy(if form == 9 { 40 } else { 60 }) };
+            let arg = if form >= 10 { v_strategy() } else { x_strategy(if form == 9 { if wide % 8 == 1 { 600 } else { 40 } } else { 60 }) };
             (Just(form), gen::coeffs(n, emax_c), arg).prop_map(|(form, c, x)| Case { form, c: c.into_iter().map(B).collect(), x: B(x) })
         });
         prop_oneof![4 => general, 1 => exact_class()].boxed()
@@ -137,7 +145,10 @@ impl Prop for C01 {
                 if i > 0 {
                     pw = pw.mul(&xd);
                 }
-                if !in_range(&pw, 900) || !in_range(&pw.mul(&d(ci)), 900) || !in_range(&d(ci), 900) {
+                // fixed-degree forms (Estrin) form bare powers of x, so those must be in range too; the
+                // dynamic-degree Horner form never does: only its terms and coefficients are constrained
+                let power_ok = form == 9 || in_range(&pw, 900);
+                if !power_ok || !in_range(&pw.mul(&d(ci)), 900) || !in_range(&d(ci), 900) {
                     return Outcome::Skip("a partial term overflows/underflows 2^±900");
                 }
             }
